@@ -163,6 +163,15 @@ CHECKS["C15"] = dict(
     parts=[rapid_part("rapid", "compose", "TestC15", 6000, 60000, replay_test="TestC15Replay")],
 )
 
+CHECKS["C16"] = dict(
+    technique="property-based testing (rapid) against a reference option router: generated nested graphs with mixed component types x generated call options (undesignated, designated to nodes / paths, misuse kinds, designated callbacks) x sequential and concurrent calls",
+    level_text="Generated nested graphs (Graph and Workflow levels, depth <= 3) with lambdas of two option types, lambdas without options and a document-transformer component; calls carrying 0-5 options each: undesignated component options of each type, options designated to a node, to a nested path or to a graph node, to an unknown node, to a path below a non-graph node, with a wrong option type, and designated callback handlers. Every instrumented node records the option values it received (tagged with the call id). Oracle: a reference router written from the statement gives, per node, the ordered list of values it must receive, and the calls that must fail; equality is required for every node, no value of another call may appear (2-3 calls per case, concurrently in a third of the cases), a designated callback must fire at its node and nowhere outside it.",
+    level_note="Designating a graph node is modelled as addressing the nodes of the option's type inside that graph. Tools-node and chat-model options are not generated (their routing goes through the same extractOption code path; their delivery to tools is C17's business).",
+    rule="rapid draws the node tree and the calls; non-trivial = nesting depth >= 1, >= 3 component kinds, at least one option designated to a path of length >= 2 and one undesignated option; distinct = FNV-1a of case JSON",
+    assumptions=["all values of one WithLambdaOption call share a type (documented precondition)"],
+    parts=[rapid_part("rapid", "compose", "TestC16", 5000, 50000, replay_test="TestC16Replay")],
+)
+
 # properties not claimed (with reason); everything else not in CHECKS is "not built yet"
 NOT_APPLICABLE = {}
 
